@@ -220,9 +220,22 @@ def drive(FullGrid, b, o, t, f, cart, order_seed):
                    cls=[f"cartesian={cart}", f"b_alg={b.split('_')[0]}", f"factor={f}"], sample=(order_seed % 7 == 0))
     try:
         fg = FullGrid(b, o, t, factor=f, position_grid_cartesian=cart)
+        other = None
+        if order_seed % 3 == 0:
+            # history: between the construction of this grid and its first getter another constructor fails (a direction algorithm given
+            # as rotation grid is a ValueError) and a grid of the same names with another factor is built and stays alive
+            REC.classes["other grids built between construction and getters"] += 1
+            try:
+                FullGrid("ico_8", o, t, factor=7 * f, position_grid_cartesian=cart)
+            except Exception:
+                pass
+            other = FullGrid(b, o, t, factor=2.5 * f, position_grid_cartesian=cart)
         calls = [fg.get_full_adjacency, fg.get_full_borders, fg.get_full_distances, fg.get_total_volumes]
         rng = random.Random(order_seed)
         rng.shuffle(calls)
+        if other is not None:
+            calls.insert(2, other.get_full_distances)     # the two live grids are asked alternately, each judged with its own factor
+            calls.append(other.get_full_borders)
         if rng.random() < 0.4:
             calls.append(rng.choice(calls))
         if rng.random() < 0.4:
